@@ -10,7 +10,8 @@ ID = "C16"
 RULE = (
     "complete product beam geometry x ny x side x structural model x load factor x fuel (mass, reserve) x point-mass set (number, placement) "
     "on the real SpatialBeamAlone group; oracle = sums and moments computed by the harness from the group's own nodes, section areas and "
-    "inputs; non-trivial = distinct configurations with non-zero mass"
+    "inputs; part aspoint: the same sums / moments for every surface inside a two-surface AerostructPoint (symmetry x model x inertial-load source per surface "
+    "x load factor x equal/different ny); non-trivial = distinct configurations with non-zero mass"
 )
 ASSUMPTIONS = ["finite alphabets; ny<=5, <=2 point masses", "g = 9.80665", "OpenMDAO/NumPy trusted"]
 BOUND = {"quick": "ny in {2,3} half / {3,5} full", "thorough": "ny up to 7"}
